@@ -240,6 +240,89 @@ def gen_random(rng, op, style=None):
     return Case(op, args, idx, family=f"random/{style}")
 
 
+SPECIAL_SCALARS = [F(0), F(0), F(1), F(1), F(-1), F(2), F(1, 2), F(-1, 2), F(3, 2), F(-2)]
+
+
+def _special_matrix(rng, n):
+    kind = rng.choice(["sparse", "unimodular", "affine", "diagonal", "perm"])
+    I = [[F(1) if r == c else F(0) for r in range(n)] for c in range(n)]      # columns
+    if kind == "sparse":
+        m = [[rng.choice([F(0), F(0), F(1), F(-1), rng.small()]) for _ in range(n)] for _ in range(n)]
+    elif kind == "unimodular":
+        m = I
+        for _ in range(2 * n):
+            i, j = rng.below(n), rng.below(n)
+            if i != j:
+                k = F(rng.choice([-3, -2, -1, 1, 2, 3]))
+                m[j] = [m[j][r] + k * m[i][r] for r in range(n)]                 # column_j += k column_i: det stays 1
+    elif kind == "affine":
+        m = [[rng.small() for _ in range(n)] for _ in range(n)]
+        for c in range(n):
+            m[c][n - 1] = F(1) if c == n - 1 else F(0)
+        if rng.chance(1, 3):
+            m[rng.below(n - 1)][n - 1] = rng.small()                             # almost affine
+    elif kind == "diagonal":
+        m = [[(rng.choice([F(2), F(1, 2), F(1), F(-1), F(3)]) if r == c else F(0)) for r in range(n)] for c in range(n)]
+    else:
+        m = I
+        for _ in range(n):
+            i, j = rng.below(n), rng.below(n)
+            m[i], m[j] = m[j], m[i]
+        if rng.chance(1, 2):
+            c = rng.below(n)
+            m[c] = [-x for x in m[c]]
+    return [x for col in m for x in col]
+
+
+def gen_special(rng, op):
+    """arguments made of special values; consecutive vectors of the same kind are sometimes exact multiples"""
+    sig = SIG[op]
+    args, idx = [], []
+    prev = {}
+    for kind in sig:
+        reps = 1
+        k = kind
+        if kind.endswith("*"):
+            reps, k = rng.below(4), kind[:-1]
+        for _ in range(reps):
+            if k == "x":
+                args.append(rng.choice(SPECIAL_SCALARS))
+            elif k.startswith("#"):
+                a, i = gen_kind(rng, k, "small")
+                idx += i
+            elif k in ("M2", "M3", "M4"):
+                args += _special_matrix(rng, int(k[1]))
+            elif k == "Q":
+                q = rng.choice([[F(1), F(0), F(0), F(0)], [F(0), F(1), F(0), F(0)], [F(0), F(0), F(3, 5), F(4, 5)],
+                                [F(1), F(1), F(2), F(3)], [F(-1), F(1), F(1), F(1)], [F(1, 2), F(1, 2), F(1, 2), F(1, 2)],
+                                [F(0), F(3, 5), F(4, 5), F(0)], [F(-1, 2), F(1, 2), F(1, 2), F(1, 2)],
+                                [F(0), F(0), F(0), F(1)], [F(1), F(0), F(0), F(1)], [F(4, 5), F(0), F(3, 5), F(0)]])
+                args += q
+            else:
+                n = SIZES[k]
+                if k in prev and rng.chance(1, 2):
+                    m = rng.choice([F(1), F(-1), F(2), F(-1, 2), F(-3)])
+                    v = [m * x for x in prev[k]]
+                else:
+                    v = [rng.choice([F(0), F(0), F(1), F(-1), F(2), F(3, 5), F(4, 5), rng.small()]) for _ in range(n)]
+                prev[k] = v
+                args += v
+    return Case(op, args, idx, family="special-values")
+
+
+def sparsified(cases, rng, copies):
+    """clones of oracle cases in which about half of the rational arguments are replaced by special values:
+    unit quaternions like (0,1,0,0), axis-aligned (anti)parallel vectors, affine / diagonal matrices, t = 0, 1, 2 ..."""
+    out = []
+    for c in cases:
+        if c.expect or not c.args:
+            continue
+        for _ in range(copies):
+            args = [(rng.choice(SPECIAL_SCALARS) if rng.chance(1, 2) else a) for a in c.args]
+            out.append(Case(c.op, args, list(c.idx), family=(c.family or "") + "+sparsified"))
+    return out
+
+
 # ------------------------------------------------------------------ D: differential run
 
 class DResult:
